@@ -153,4 +153,164 @@ Section Spec.
     first_match_ok (c_connecters C) sep &&
     pairwise_incompat (c_copulas C) &&
     pairwise_incompat (map fst (c_set_brackets C)).
+
+  (* ---- the item layer ---- *)
+  (* the whitespace-free text of a whole value *)
+  Definition text0 : lnarsese -> str := lex_fmt_g F [] [].
+  Definition rest_text (s : lsentence) : str := ls_punct s ++ ls_stamp s ++ lex_fmt_truth F (ls_truth s).
+
+  (* what the item segmenters must NOT find at the borders of the term text (conditions on the
+     top-level term only; see Proofs/LexPClean.v for the cases in which they follow from vocab_ok) *)
+  Definition top_clean (v : lnarsese) : Prop :=
+    match v with
+    | NTerm t =>
+        segment_budget C (f0 t) = LOk None /\ segment_truth C (f0 t) = LOk None /\
+        segment_stamp C (f0 t) = LOk None /\ segment_punctuation C (f0 t) = LOk None
+    | NSentence s => segment_budget C (f0 (ls_term s) ++ rest_text s) = LOk None
+    | NTask _ => True
+    end.
+
+  Definition unamb_top (v : lnarsese) : Prop :=
+    match v with
+    | NTerm t => unamb t []
+    | NSentence s => unamb (ls_term s) []
+    | NTask k => unamb (ls_term (lt_sentence k)) []
+    end.
+
+  Definition numc (c : N) : bool := is_ascii_digit c || (c =? 46).
+  Definition nnum (c : N) : bool := negb (numc c).
+  Definition number_chars : str := [48; 49; 50; 51; 52; 53; 54; 55; 56; 57; 46].
+
+  (* in a suffix dictionary's iteration order no entry tried before [kw] is suffix-comparable with it *)
+  Fixpoint suffix_first_ok (dict : list str) : bool :=
+    match dict with
+    | [] => true
+    | kw :: rest => forallb (fun later => negb (scompat kw later)) rest && suffix_first_ok rest
+    end.
+
+  Definition stampc (c : N) : bool := in_class (l_is_stamp_content F) c.
+  (* an entry (l, r) of the stamp dictionary against an entry (l', r') tried before it: r' must not
+     be a suffix of any text `x l content r`.  Either r' and r are suffix-incomparable, or
+     r' = a ++ r where a ends outside the content class and is suffix-incomparable with l. *)
+  Definition stamp_pair_ok (earlier later : str * str) : bool :=
+    let r' := snd earlier in
+    match snd later with
+    | [] => last_is (fun c => negb (stampc c)) r' && negb (scompat r' (fst later))
+    | r => negb (scompat r' r) ||
+           (ends r r' &&
+            let a := take (length r' - length r) r' in
+            last_is (fun c => negb (stampc c)) a && nonempty (fst later) && negb (scompat a (fst later)))
+    end.
+  Fixpoint stamp_first_ok (dict : list (str * str)) : bool :=
+    match dict with
+    | [] => true
+    | e :: rest => forallb (stamp_pair_ok e) rest && stamp_first_ok rest
+    end.
+
+  Definition lex_items_ok : bool :=
+    let bl := fst (l_budget_brackets F) in let br := snd (l_budget_brackets F) in
+    let bsep := l_budget_separator F in let bc := in_class (l_is_budget_content F) in
+    let tl := fst (l_truth_brackets F) in let tr := snd (l_truth_brackets F) in
+    let tsep := l_truth_separator F in let tc := in_class (l_is_truth_content F) in
+    (* budget *)
+    first_is nnum bl && first_is (fun c => negb (bc c)) br && last_is nnum br &&
+    first_is nnum bsep && forallb bc bsep && forallb bc number_chars &&
+    negb (nonempty_list (split_values bl br bsep (bl ++ br))) &&
+    (* truth *)
+    first_is nnum tl && last_is (fun c => negb (tc c)) tl && last_is nnum tr &&
+    first_is nnum tsep && forallb tc tsep && forallb tc number_chars &&
+    (* punctuations: first match; stamps: first match, left brackets end outside the content class *)
+    suffix_first_ok (c_punctuations C) && forallb nonempty (c_punctuations C) &&
+    stamp_first_ok (c_stamp_brackets C) &&
+    forallb (fun t => (negb (nonempty (fst t)) || last_is (fun c => negb (stampc c)) (fst t)) &&
+                      nonempty (fst t ++ snd t)) (c_stamp_brackets C) &&
+    (* an absent truth is not found behind a punctuation or a stamp *)
+    forallb (fun q => negb (scompat tr q)) (c_punctuations C) &&
+    forallb (fun t => match snd t with
+                      | [] => last_is (fun c => negb (stampc c)) tr && negb (scompat tr (fst t))
+                      | r => negb (scompat tr r)
+                      end) (c_stamp_brackets C) &&
+    (* an absent stamp is not found behind a punctuation *)
+    forallb (fun q => forallb (fun t => match snd t with
+                                        | [] => negb (scompat (fst t) q) && last_is (fun c => negb (stampc c)) q
+                                        | r => negb (scompat r q)
+                                        end) (c_stamp_brackets C)) (c_punctuations C).
+
+  (* ---- whitespace: what `idealize_env` removes is exactly the formatter's spacing ---- *)
+  Definition strip (s : str) : str := filter (fun c => negb (space_for_parse F c)) s.
+  Definition nows (s : str) : bool := forallb (fun c => negb (space_for_parse F c)) s.
+  Definition allws (s : str) : bool := forallb (space_for_parse F) s.
+
+  Definition lex_space_ok : bool :=
+    l_remove_spaces_before_parse F && allws (l_format_terms F) && allws (l_format_items F) &&
+    forallb nows (c_prefixes C) && forallb nows (c_connecters C) && forallb nows (c_copulas C) &&
+    forallb nows (c_punctuations C) &&
+    forallb (fun t => nows (fst t) && nows (snd t)) (c_set_brackets C) &&
+    forallb (fun t => nows (fst t) && nows (snd t)) (c_stamp_brackets C) &&
+    forallb nows [cl; cr; sep; sl; sr; fst (l_truth_brackets F); snd (l_truth_brackets F); l_truth_separator F;
+                  fst (l_budget_brackets F); snd (l_budget_brackets F); l_budget_separator F] &&
+    (* identifier, stamp-content and number characters are not whitespace *)
+    forallb (fun c => negb (space_for_parse F c) || (negb (ident c) && negb (stampc c) && negb (numc c)))
+            white_space_points &&
+    (* space_for_parse is contained in the 25 points (it is char::is_whitespace) *)
+    match l_space_is_for_parse F with SpaceIsWhitespace => true end.
+
+  (* ---- self-delimiting formats: [unamb] follows from [vocab_ok] (ASCII, LaTeX; not Han) ---- *)
+  (* q is tried before p by the prefix dictionary *)
+  Fixpoint prefix_first_ok (dict : list str) : bool :=
+    match dict with
+    | [] => true
+    | q :: rest =>
+        forallb (fun p => match p with
+                          | [] => first_is (fun c => negb (ident c)) q || (length q =? 1)%nat
+                          | _ => negb (compat q p)
+                          end) rest && prefix_first_ok rest
+    end.
+
+  (* a copula cannot begin inside a name: its first character is not an identifier character, or is
+     by itself a keyword (which names do not contain) *)
+  Definition lex_selfdelim : bool :=
+    forallb (fun k => first_is (fun c => negb (ident c) || str_in [c] keywords) k) (c_copulas C) &&
+    prefix_first_ok (c_prefixes C).
+
+  (* ---- [top_clean] from the tables ---- *)
+  (* what a text ending with [z] must satisfy so that no truth / stamp / punctuation is cut from it *)
+  Definition tail_clean (z : str) : bool :=
+    negb (scompat (snd (l_truth_brackets F)) z) &&
+    forallb (fun q => negb (scompat q z)) (c_punctuations C) &&
+    forallb (fun t => match snd t with
+                      | [] => negb (scompat (fst t) z) && last_is (fun c => negb (stampc c)) z
+                      | r => negb (scompat r z)
+                      end) (c_stamp_brackets C).
+
+  (* a character of the budget's closing bracket that occurs in no name, number, punctuation, stamp
+     or truth: an unterminated budget opening is never closed by accident *)
+  Definition budget_key_char (e : N) : bool :=
+    negb (ident e) && negb (stampc e) && negb (numc e) &&
+    negb (memb e (concat (c_punctuations C))) &&
+    negb (memb e (concat (map (fun t => fst t ++ snd t) (c_stamp_brackets C)))) &&
+    negb (memb e (fst (l_truth_brackets F) ++ snd (l_truth_brackets F) ++ l_truth_separator F)).
+
+  Definition lex_clean_ok : bool :=
+    let bl := fst (l_budget_brackets F) in
+    (* bracketed terms: the budget's opening bracket does not start them, nothing is cut from their end *)
+    forallb (fun b => negb (compat bl b)) bracket_lefts &&
+    forallb tail_clean bracket_rights &&
+    (* atoms: the budget's opening bracket is not an identifier character or is a one-character
+       keyword; an atom prefix is empty, incomparable with it, or equal to it -- in which case the
+       closing bracket has a key character *)
+    (first_is (fun c => negb (ident c)) bl || (length bl =? 1)%nat) && nonempty bl &&
+    forallb (fun p => negb (nonempty p) || negb (compat bl p) ||
+                      (str_eqb p bl && existsb budget_key_char (snd (l_budget_brackets F))))
+            (c_prefixes C).
+
+  (* bare atoms (ASCII, LaTeX; not Han): nothing is cut from the end of a name *)
+  Definition lex_clean_atoms_ok : bool :=
+    let nid := fun c => negb (ident c) in
+    last_is nid (snd (l_truth_brackets F)) &&
+    forallb (last_is nid) (c_punctuations C) &&
+    forallb (fun t => match snd t with
+                      | [] => last_is (fun e => nid e && forallb (fun p => negb (memb e p)) (c_prefixes C)) (fst t)
+                      | r => last_is nid r
+                      end) (c_stamp_brackets C).
 End Spec.
